@@ -27,3 +27,6 @@ func Cond(i int) bool {
 	At(i)
 	return true
 }
+
+// Never is false at run time (used to keep a statically present yield unreachable).
+func Never() bool { return len(Depths) < 0 }
